@@ -1049,6 +1049,36 @@ func Run(o *corr.Out) {
 		}
 	}
 
+	// ---- 2b. interrupted emissions: a multi-frame packet whose send stopped after some of its frames
+	// (the stream layer checks for termination between the frames of a message; a raw Writer user can stop
+	// anywhere), followed by what the connection sends next — packets with higher ids. Still a
+	// well-formed sequence; the unfinished packet, control or not, must leave no trace on what follows.
+	for i := 0; i < 150*scale; i++ {
+		n := []int{1, 7, 1024}[r.Intn(3)]
+		ps := g.packets(2+r.Intn(6), n, 50, false)
+		var frs []drpcwire.Frame
+		cut := 0
+		for j, p := range ps {
+			pf := newFrames([]pk{p}, n)
+			if len(pf) >= 2 && j < len(ps)-1 && r.Intn(2) == 0 {
+				pf = pf[:1+r.Intn(len(pf)-1)]
+				cut++
+			}
+			frs = append(frs, pf...)
+		}
+		if cut == 0 {
+			continue
+		}
+		stream := enc(frs)
+		if !wellFormed(frs) {
+			o.Oracle("new-emits-wellformed", fmt.Sprintf("interrupted n=%d pkts=%s", n, clipS(pktsStr(ps))), "not WellFormed")
+			continue
+		}
+		max := []int{0, 0, 100000}[r.Intn(3)]
+		c.checkStream(stream, "", frs, max, "newemit-cut", false)
+		o.Stat(fmt.Sprintf("interrupted-emission:cut=%d", cut))
+	}
+
 	// Writer.WritePacket (one done frame, no splitting) keeps every field, the control bit included
 	for _, kind := range []uint8{0, 1, 4, 9, 63} {
 		for _, ctl := range []bool{false, true} {
